@@ -129,6 +129,31 @@ func genC02(ctx *Ctx) {
 			ctx.Input(exprInput("a "+o1+" b "+o2+" c", sx.L(), nil), true)
 		}
 	}
+	// every operator inside every bracketing context (index, call arguments, parentheses, operand of a prefix operator)
+	{
+		v := func(n string) *Tree { return &Tree{Kind: "var", Text: n} }
+		var inner []*Tree
+		for op := range binLevel {
+			inner = append(inner, &Tree{Kind: "bin", Op: op, Args: []*Tree{v("a"), v("b")}})
+		}
+		for _, op := range []string{"NOT", "NEG", "ISNULL", "ISNOTNULL"} {
+			inner = append(inner, &Tree{Kind: "un", Op: op, Args: []*Tree{v("a")}})
+		}
+		for _, in := range inner {
+			for _, t := range []*Tree{
+				{Kind: "bin", Op: "ELEM", Args: []*Tree{v("c"), in}},
+				{Kind: "call", Text: exprFuncs[0], Args: []*Tree{in}},
+				{Kind: "call", Text: exprFuncs[0], Args: []*Tree{v("c"), in}},
+				{Kind: "bin", Op: "*", Args: []*Tree{in, v("c")}},
+				{Kind: "un", Op: "NOT", Args: []*Tree{in}},
+				{Kind: "un", Op: "NEG", Args: []*Tree{in}},
+			} {
+				p := &printer{rnd: ctx.Rnd, parens: 0}
+				ctx.Count("operator-in-context")
+				ctx.Input(exprInput(p.at(t, 0), sx.L(), t), true)
+			}
+		}
+	}
 	// a few special inputs: empty, blanks, unknown symbols, empty quoted identifier
 	for _, s := range []string{"", "   ", "a $ b", "a ? 1", "\"\"", "a + \"\"", "#", "a.b", "1 2", "f(,)", "f(a,,b)", "a[1][2]", "NOT NOT a", "a = NOT b", "- - a", "a IS NULL IS NULL", "f(a,)", "@", "ſ", "ıs",
 		"a lıke b", "a ıs null", "a ıN b", "x NOT Lıke y", "a iſ nULL", "not falſe", "a LI\u212aE b", "a \u212a b", "nULL ıſ nULL", "a xOR b", "truE aND falSe", "a L\u0130KE b",
